@@ -52,7 +52,44 @@ def setters(db, name, nargs):
     return [(f, ev, "call") for f, ev in db.callers_of(name) if len(ev.get("args", [])) == nargs]
 
 
+
+def physics_limit_shrinks(db, cx):
+    """C05.8 (seeded change c05f): inside calc_physics_step_limit the limit starts as the distance
+    to the discrete interaction and every later candidate (range step, user step limiter) replaces
+    it only on the edge where the candidate is smaller than the *current limit* - not smaller than
+    some other candidate."""
+    fs = db.get(C + "calc_physics_step_limit")
+    cx.require(fs, "anchor calc_physics_step_limit not found")
+    n = 0
+    for f in fs:
+        ws = [(b, i, e) for (b, i, e) in f.events("write")
+              if (e.get("path") or {}).get("chain") == ["f:" + C + "StepLimit::step"]]
+        for (b, i, e) in ws:
+            lr = sorted(local_refs(e.get("refs", [])))
+            if e.get("lit") is not None or e.get("calls"):
+                continue            # the initial definitions (0 for a stopped particle, mfp / xs)
+            if len(lr) != 1 or (e.get("rhs") or "").strip() != lr[0]:
+                continue
+            v = lr[0]
+            ok = False
+            for br in f.branch_blocks(lambda c, _b: c.get("op") in ("<", "<=") and c.get("lrefs") == [v]
+                                      and "F:" + C + "StepLimit::step" in c.get("rrefs", [])):
+                if f.guarded_by_edge((b, i), br, f.cond_polarity_edge(br, True)):
+                    ok = True
+            for br in f.branch_blocks(lambda c, _b: c.get("op") in (">", ">=") and c.get("rrefs") == [v]
+                                      and "F:" + C + "StepLimit::step" in c.get("lrefs", [])):
+                if f.guarded_by_edge((b, i), br, f.cond_polarity_edge(br, True)):
+                    ok = True
+            n += 1
+            cx.ob("C05.8-physics-limit-shrinks", "limit.step = %s @%s only where %s is below the current limit"
+                  % (v, short(e["loc"]).split(":", 1)[1], v), ok, "", short(e["loc"]),
+                  why="a candidate that replaces a shorter limit lengthens the step beyond the sampled "
+                      "interaction distance: the track passes its interaction point and the "
+                      "interaction is silently skipped")
+    cx.floor("candidates replacing the physics step limit", n, 2)
+
 def run(db, cx):
+    physics_limit_shrinks(db, cx)
     # shared with C08: the field driver never integrates a sub-step past the requested chord
     # (otherwise the track moves further than its reported step length; seeded change c05e)
     import C08 as _c08
